@@ -233,6 +233,9 @@ pub struct JournalSim {
     pub durable_floor: u64,
     pub error: Option<String>,
     pub prunes: u32,
+    /// number of event records handed to the journal process so far
+    pub events_forwarded: usize,
+    pub events_at_last_prune: usize,
 }
 
 pub struct World {
@@ -426,11 +429,14 @@ impl World {
             journal: JournalSim {
                 path: journal_path,
                 to_journal: tx_b,
-                fut: Some(Box::pin(jfut)),
+                // opt out of tokio's cooperative budget: the harness polls this future by hand
+                fut: Some(Box::pin(tokio::task::unconstrained(jfut))),
                 pending: VecDeque::new(),
                 durable_floor: 0,
                 error: None,
                 prunes: 0,
+                events_forwarded: 0,
+                events_at_last_prune: 0,
             },
             workers: BTreeMap::new(),
             clients: Vec::new(),
@@ -502,7 +508,8 @@ impl World {
         };
         let (sim, r_rx) = SimWorker::new(response, cfg.clone(), Box::new(launcher));
         let stream = ManualStream::default();
-        let recv_fut = self.server.receive_loop(id, stream.clone());
+        let recv_fut: Pin<Box<dyn Future<Output = _>>> =
+            Box::pin(tokio::task::unconstrained(self.server.receive_loop(id, stream.clone())));
         let connect_ms = self.now_ms();
         self.workers.insert(
             id,
@@ -660,7 +667,7 @@ impl World {
         self.clients.push(ClientSim {
             to_server,
             from_server,
-            fut: Some(Box::pin(fut)),
+            fut: Some(Box::pin(tokio::task::unconstrained(fut))),
             pending: None,
             streaming_job: None,
             streamed: Vec::new(),
@@ -725,6 +732,9 @@ impl World {
             return false;
         };
         let sync = !matches!(msg, EventStreamMessage::Event(_));
+        if !sync {
+            self.journal.events_forwarded += 1;
+        }
         let is_prune = matches!(msg, EventStreamMessage::PruneJournal { .. });
         if self.journal.to_journal.send(msg).is_err() {
             self.journal.error = Some("journal channel closed".to_string());
@@ -735,6 +745,7 @@ impl World {
             self.journal.durable_floor = self.journal_file_len();
             if is_prune {
                 self.journal.prunes += 1;
+                self.journal.events_at_last_prune = self.journal.events_forwarded;
             }
         }
         true
